@@ -24,6 +24,7 @@ import CtyModel.Lemmas.d11Alloc
 import CtyModel.Lemmas.d11Table
 import CtyModel.Lemmas.d11Total
 import CtyModel.Lemmas.d11bColl
+import CtyModel.Lemmas.d11bNum
 import CtyModel.Props.C10
 namespace CtyModel
 namespace C11
@@ -633,6 +634,67 @@ theorem call_total_coalescelist (nfc : String → Bool) (args : List Value) (har
     (∀ w, (call Stdlib.coalesceListSpec Stdlib.coalesceListType Stdlib.coalesceListImpl args).1 ≠ .panic w) ∧
     (∀ w, (call Stdlib.coalesceListSpec Stdlib.coalesceListType Stdlib.coalesceListImpl args).1 ≠ .err (.panicError w)) :=
   Stdlib.call_total_coalesceList args hargs
+
+/-- **`compact` is total** (collection.go `CompactFunc`; nulls and empty strings inside the list, a list
+that is not wholly known) -/
+theorem call_total_compact (nfc : String → Bool) (E : Stdlib.Env) (args : List Value) (hargs : ∀ a ∈ args, a.WF nfc = true) :
+    (∀ w, (call Stdlib.compactSpec Stdlib.compactType (Stdlib.compactImpl E) args).1 ≠ .panic w) ∧
+    (∀ w, (call Stdlib.compactSpec Stdlib.compactType (Stdlib.compactImpl E) args).1 ≠ .err (.panicError w)) :=
+  Stdlib.call_total_compact E args hargs
+
+/-- **The statically typed number and bool functions `signum`, `ceil`, `floor`, `int`, `abs` (`AbsoluteFunc`),
+`neg` (`NegateFunc`), `min`, `max`, `not`, `and`, `or` are total** (number.go, bool.go; the protocol
+instances of `Stdlib/d11bFuncs.lean` over the `Impl` models of C14, compared with the code by the
+`d11b.call` correspondence): for every entry of `D11b.table`, `Call` on well-formed values — any
+number of them, of any type, null, unknown, marked or dynamically typed — returns a value or an
+ordinary error.  (`min()` / `max()` without arguments, `int(±Inf)`: ordinary errors.) -/
+theorem call_total_number_bool_functions (nfc : String → Bool) :
+    ∀ e ∈ D11b.table, ∀ (E : Stdlib.Env) (args : List Value), (∀ a ∈ args, a.WF nfc = true) →
+      (∀ w, (call e.2.2.2.spec (e.2.2.2.tf E) (e.2.2.2.impl E) args).1 ≠ .panic w) ∧
+      (∀ w, (call e.2.2.2.spec (e.2.2.2.tf E) (e.2.2.2.impl E) args).1 ≠ .err (.panicError w)) :=
+  fun e he => D11b.callTotal_table e he
+
+/-- … which functions these are -/
+theorem number_bool_functions_listed :
+    D11b.table.map (·.2.1) = ["SignumFunc", "CeilFunc", "FloorFunc", "IntFunc", "AbsoluteFunc", "NegateFunc",
+      "MinFunc", "MaxFunc", "NotFunc", "AndFunc", "OrFunc"] := by decide
+
+/-- … one of them spelled out: `min` -/
+theorem call_total_min (nfc : String → Bool) (args : List Value) (hargs : ∀ a ∈ args, a.WF nfc = true) :
+    (∀ w, (call (D11b.specVar D11b.pNumD) (D11b.staticTf .number) (D11b.implOf StdNum.minImpl) args).1 ≠ .panic w) ∧
+    (∀ w, (call (D11b.specVar D11b.pNumD) (D11b.staticTf .number) (D11b.implOf StdNum.minImpl) args).1 ≠ .err (.panicError w)) :=
+  D11b.callTotal_table ("min", "MinFunc", "cty.Number", D11b.minF)
+    (by unfold D11b.table; repeat (first | exact List.Mem.head _ | apply List.Mem.tail)) {} args hargs
+
+/-- their `Type` callback is the constant one of the static type the SOURCE declares (regenerated
+syntax table) -/
+theorem number_bool_functions_static :
+    ∀ e ∈ D11b.table, ∃ T, staticTy? e.2.2.1 = some T ∧ ∀ E as, e.2.2.2.tf E as = .ok T := D11b.table_static
+
+set_option maxRecDepth 16384 in
+/-- **the model specs ARE the regenerated table entries**: for every function proved total above, the
+parameter declarations of the model spec (types and the four `Allow*` flags of every parameter, the
+variadic parameter) are those the BUILT code reports (`Generated.stdlibSpecs`), the declared static type
+and `RefineResult: refineNonNull` are what the SOURCE says (`Generated.stdlibSyntax`) -/
+theorem d11b_specs_are_table_entries :
+    (D11b.table.all fun e =>
+      match Std.find? e.2.1, Std.syntax? e.2.1 with
+      | some s, some sy => D11b.specMatches e.2.2.2.spec s && (sy.staticType == some e.2.2.1) &&
+          (sy.refine == "refineNonNull") && e.2.2.2.spec.refine.isSome
+      | _, _ => false) = true ∧
+    (D11b.collTable.all fun e =>
+      match Stdlib.byName e.1, Std.find? e.2, Std.syntax? e.2 with
+      | some f, some s, some sy => D11b.specMatches f.spec s && (sy.refine == "refineNonNull") && f.spec.refine.isSome
+      | _, _, _ => false) = true := by
+  constructor <;> decide
+
+/-- the hypothesis of the totality theorems is met by non-trivial argument lists, and the calls do
+something: `min(3, marked… no: 3, -2)`, `keys({a=1})` under a mark, `coalescelist(null, unknown)` -/
+example : (match (call (D11b.specVar D11b.pNumD) (D11b.staticTf .number) (D11b.implOf StdNum.minImpl)
+    [Value.intVal 3, Value.intVal (-2)]).1 with
+    | .ok v => (match v.v with | .n x => x.signbit | _ => false)
+    | _ => false) = true := by decide
+example : ∀ a ∈ [(⟨.map .number, .marked ["m"] (.smap ["a"] [.n (.fin false 1 0 64)])⟩ : Value)], a.WF (fun _ => true) = true := by decide
 
 /-! ### the hypotheses are satisfiable -/
 
